@@ -333,28 +333,35 @@ func checkFailureStatusUnconditional(c *report.Ctx) {
 	if f == nil {
 		return
 	}
-	facts := an.NewFacts(f)
-	ord := an.NewOrder(f, func(in ssa.Instruction) uint64 {
-		if call, ok := in.(ssa.CallInstruction); ok && strings.HasSuffix(an.Callee(call), ".WriteHeader") {
-			return 1
-		}
-		return 0
-	})
+	inv := an.CallsTo(f, "M/cmd/aws-lambda-rie.Sandbox.Invoke")
 	n, ok := 0, true
 	pos := fpos(f)
-	for _, e := range an.Exits(f) {
-		failed := facts.Holds(e.Ret.Block(), func(ft an.Fact) bool {
-			return an.CmpEq(ft, true, func(v ssa.Value) bool { return true }, func(v ssa.Value) bool {
-				return oneOf(an.GlobalOf(an.Strip(v, false)), "L/rapidcore.ErrInitDoneFailed", "L/rapidcore.ErrInvokeDoneFailed")
-			})
-		})
-		if !failed {
-			continue
-		}
-		n++
-		if must, _ := ord.Before(e.Ret); must&1 == 0 {
-			ok = false
-			pos = an.InstrPos(e.Ret)
+	if len(inv) == 1 {
+		for _, e := range []string{"L/rapidcore.ErrInitDoneFailed", "L/rapidcore.ErrInvokeDoneFailed"} {
+			// on the paths taken when the sandbox reported e: a status is written before every return
+			ord := an.NewOrderPruned(f, func(in ssa.Instruction) uint64 {
+				if in == ssa.Instruction(inv[0]) {
+					return 2
+				}
+				if call, isCall := in.(ssa.CallInstruction); isCall && strings.HasSuffix(an.Callee(call), ".WriteHeader") {
+					return 1
+				}
+				return 0
+			}, assumeErrIs(inv[0].Value(), e))
+			for _, x := range an.Exits(f) {
+				if !ord.Reached(x.Ret) {
+					continue
+				}
+				must, _ := ord.Before(x.Ret)
+				if must&2 == 0 {
+					continue // returned before the sandbox was called
+				}
+				n++
+				if must&1 == 0 {
+					ok = false
+					pos = an.InstrPos(x.Ret)
+				}
+			}
 		}
 	}
 	c.Check("R-ORDER", an.FuncName(f)+"/failure-always-gets-a-status", "the exits for 'init failed' and 'invoke failed' have written a status on every path (an empty body is still a failure)", ok && n >= 2, pos, n, "failure exits: %d, each after WriteHeader: %v", n, ok)
@@ -558,18 +565,21 @@ func checkAgentListingsLookAtNoAgent(c *report.Ctx) {
 
 // checkExcludedKeysNotCredentials (C16): extensions get the same credentials variables as the runtime.
 func checkExcludedKeysNotCredentials(c *report.Ctx) {
-	f := fn(c, "L/rapidcore/env", "extensionExcludedKeys")
+	f := fn(c, "L/rapidcore/env", "(*Environment).AgentExecEnv")
 	if f == nil {
 		return
 	}
+	// the names the extensions' filter withholds by name (the filter predicate decided per class of names)
 	excl := map[string]bool{}
-	an.AllInstrs(f, func(in ssa.Instruction) {
-		if mu, ok := in.(*ssa.MapUpdate); ok {
-			if s, ok := an.ConstString(mu.Key); ok {
-				excl[s] = true
+	decided := false
+	if calls := an.CallsTo(f, "L/rapidcore/env.mapExclude"); len(calls) == 1 {
+		if sp, ok := decideStringPred(closureOf(calls[0].Common().Args[1])); ok {
+			decided = true
+			for _, k := range sp.TrueFor {
+				excl[k] = true
 			}
 		}
-	})
+	}
 	var cred []string
 	for _, g := range repoFuncs(c) {
 		if !strings.HasPrefix(an.FuncName(g), "L/rapidcore/env.") {
@@ -590,7 +600,7 @@ func checkExcludedKeysNotCredentials(c *report.Ctx) {
 			both = append(both, k)
 		}
 	}
-	c.Check("R-CONST", an.FuncName(f)+"/no-credentials-withheld", "none of the variables of the credentials layer is on the extensions' exclusion list", len(both) == 0 && len(cred) >= 5 && len(excl) >= 3, fpos(f), len(cred), "credential variables: %v; excluded ones: %v", cred, both)
+	c.Check("R-CONST", "L/rapidcore/env.extensionExcludedKeys/no-credentials-withheld", "none of the variables of the credentials layer is on the extensions' exclusion list", decided && len(both) == 0 && len(cred) >= 5 && len(excl) >= 3, fpos(f), len(cred), "credential variables: %v; excluded ones: %v", cred, both)
 }
 
 // checkCustomerValueNotFiltered (C16): a customer variable is kept for what its name is, not for what it holds.
